@@ -242,7 +242,7 @@ func matchWire(out []byte, exp []expOut) string {
 
 func TestC08_CloseAndPingStateMachine(t *testing.T) {
 	rec := evid.For("C08")
-	rec.SetRule("rapid histories (<=25 steps) over peer events {data (1-2 fragments, with 0..2 pings/pongs between the fragments), ping, pong, close(valid code+reason), close(empty), close(1-byte | invalid code | bad UTF-8 reason), framing violation, transport EOF, transport error, truncated frame} and local calls {NextFrame, AsyncNextFrame, NextMessage, AsyncNextMessage, Write, AsyncWrite, WriteFrame, AsyncWriteFrame, Flush, AsyncFlush, Close, AsyncClose} on a scripted transport; reference RFC 6455 endpoint model predicts every read result, every refused/accepted write, the allowed State() set and the exact outbound frame list (parsed by an independent parser): one Pong per Ping while open with identical payload in order, one Close per connection echoing the code / 1000 / 1002, nothing but optional pongs after it; a blocking read never returns to the transport for more bytes while a reply it queued is unsent; non-trivial = the history reaches closing-by-us or closed-by-peer and has >=1 event after the transition, OR >=2 pings answered while open with application frames written in between; TestC08_CloseReplyCodes: a peer Close sent to an open stream with status codes swept over 0..65535 (weighted to 999..1016, 2999..3001, 4999..5001; 1014 left out) in the forms code / code+reason / code+invalid UTF-8 / empty / one byte, read through each API: exactly one Close reply with the echoed code when that code may appear on the wire, 1000 for the empty payload, 1002 otherwise, then State()!=active and Write refused; non-trivial there = a 1002 reply or a reserved code (1004/1005/1006/1015); distinct = hash of the history")
+	rec.SetRule("rapid histories (<=25 steps) over peer events {data (1-2 fragments, with 0..2 pings/pongs between the fragments; frames are fed whole, cut in two segments, or with their first segment glued to the end of the previous one), ping, pong, close(valid code+reason), close(empty), close(1-byte | invalid code | bad UTF-8 reason), framing violation, transport EOF, transport error, truncated frame} and local calls {NextFrame, AsyncNextFrame, NextMessage, AsyncNextMessage, Write, AsyncWrite, WriteFrame, AsyncWriteFrame, Flush, AsyncFlush, Close, AsyncClose} on a scripted transport; reference RFC 6455 endpoint model predicts every read result, every refused/accepted write, the allowed State() set and the exact outbound frame list (parsed by an independent parser): one Pong per Ping while open with identical payload in order, one Close per connection echoing the code / 1000 / 1002, nothing but optional pongs after it; a blocking read never returns to the transport for more bytes while a reply it queued is unsent; non-trivial = the history reaches closing-by-us or closed-by-peer and has >=1 event after the transition, OR >=2 pings answered while open with application frames written in between; TestC08_CloseReplyCodes: a peer Close sent to an open stream with status codes swept over 0..65535 (weighted to 999..1016, 2999..3001, 4999..5001; 1014 left out) in the forms code / code+reason / code+invalid UTF-8 / empty / one byte, read through each API: exactly one Close reply with the echoed code when that code may appear on the wire, 1000 for the empty payload, 1002 otherwise, then State()!=active and Write refused; non-trivial there = a 1002 reply or a reserved code (1004/1005/1006/1015); distinct = hash of the history")
 	rec.Assume("the control callback performs no stream calls; one read and one write outstanding at a time; after an injected non-EOF transport error the history stops (behaviour unspecified by the property)")
 	doubleCloseKnown := known.Listed("C08", "second-close-after-violation")
 	vt.CheckSteps(t, 2000, 18, func(t *rapid.T) {
@@ -321,11 +321,17 @@ func TestC08_CloseAndPingStateMachine(t *testing.T) {
 		}
 		feed := func(f inFrame) {
 			wire := rfc6455.Encode(f.f)
+			first, rest := wire, []byte(nil)
 			if len(wire) > 2 && rapid.Bool().Draw(t, "split") {
 				c := rapid.IntRange(1, len(wire)-1).Draw(t, "at")
-				ms.Feed(append([]byte(nil), wire[:c]...), append([]byte(nil), wire[c:]...))
-			} else {
-				ms.Feed(wire)
+				first, rest = append([]byte(nil), wire[:c]...), append([]byte(nil), wire[c:]...)
+			}
+			// the first bytes of this frame may arrive in the same segment as the end of what the peer sent before
+			if !(rapid.IntRange(0, 2).Draw(t, "coalesce") == 0 && ms.AppendToLast(first)) {
+				ms.Feed(first)
+			}
+			if rest != nil {
+				ms.Feed(rest)
 			}
 			m.inbound = append(m.inbound, f)
 		}
@@ -459,7 +465,10 @@ func TestC08_CloseAndPingStateMachine(t *testing.T) {
 					heldAtWait = q
 				}
 			}
-			defer func() { ms.OnSyncRead = nil }()
+			// the asynchronous reads likewise: by the time one of them arms the transport, the flush that precedes every
+			// read has completed and nothing it queued is left unsent
+			ms.OnAsyncRead = ms.OnSyncRead
+			defer func() { ms.OnSyncRead, ms.OnAsyncRead = nil, nil }()
 			switch api {
 			case "NextFrame":
 				f, err := s.NextFrame()
@@ -486,8 +495,8 @@ func TestC08_CloseAndPingStateMachine(t *testing.T) {
 				deliverUntil(&done, api)
 			}
 			trace = append(trace, fmt.Sprintf("%s=%v", api, gotErr))
-			if heldAtWait > 0 && (api == "NextFrame" || api == "NextMessage") {
-				t.Fatalf("%s went back to the transport for more bytes while %d frame(s) it had queued (pongs / close reply) were still unsent: the answer to a Ping must not depend on the peer sending more first; trace=%v", api, heldAtWait, trace)
+			if heldAtWait > 0 && pendingCloseDone == nil {
+				t.Fatalf("%s went (back) to the transport for more bytes while %d frame(s) it had queued (pongs / close reply) were still unsent: the answer to a Ping must not depend on the peer sending more first; trace=%v", api, heldAtWait, trace)
 			}
 			if !exp.terminal && pendingCloseDone == nil {
 				ms.DeliverAll(1000)
